@@ -509,3 +509,137 @@ pub fn conclude(cfg: &Config, meta: EvidenceMeta, mut report: Report, started: I
 	println!("HELD property={} on everything observed", meta.id);
 	Outcome { exit: 0 }
 }
+
+/// Iterator-protocol monitor: whatever way an iterator is consumed (collect,
+/// count, last, nth after a partial consumption, step_by, skip, fold) it must
+/// yield exactly `expected`, and `size_hint` must bracket what remains.
+/// Returns the number of comparisons made.
+pub fn check_iter<T, I>(what: &str, make: &dyn Fn() -> I, expected: &[T]) -> Result<u64, String>
+where
+	T: PartialEq + std::fmt::Debug + Clone,
+	I: Iterator<Item = T>,
+{
+	let len = expected.len();
+	let mut n_checks = 0u64;
+	let fail = |how: &str, got: String| Err(format!("{}: {} yields {}, expected from {:?}", what, how, got, expected));
+	// plain collection, with size_hint checked at every step
+	let mut it = make();
+	let mut got = Vec::new();
+	loop {
+		let remaining = len.saturating_sub(got.len());
+		let (lo, hi) = it.size_hint();
+		if lo > remaining || hi.map(|h| h < remaining).unwrap_or(false) {
+			return fail("size_hint", format!("({}, {:?}) with {} items remaining", lo, hi, remaining));
+		}
+		match it.next() {
+			Some(x) => got.push(x),
+			None => break,
+		}
+		if got.len() > len + 2 {
+			break;
+		}
+	}
+	n_checks += 1;
+	if got != expected {
+		return fail("next() until None", format!("{:?}", got));
+	}
+	if make().count() != len {
+		return fail("count()", format!("{}", make().count()));
+	}
+	if make().last().as_ref() != expected.last() {
+		return fail("last()", format!("{:?}", make().last()));
+	}
+	if make().fold(0usize, |a, _| a + 1) != len {
+		return fail("fold", "a different number of items".to_string());
+	}
+	n_checks += 3;
+	for m in 0..=len.min(3) {
+		for n in 0..=(len + 1).min(4) {
+			let mut it = make();
+			for _ in 0..m {
+				it.next();
+			}
+			let got = it.nth(n);
+			n_checks += 1;
+			if got.as_ref() != expected.get(m + n) {
+				return fail(&format!("nth({}) after {} next()", n, m), format!("{:?}", got));
+			}
+			let after = it.next();
+			if after.as_ref() != expected.get(m + n + 1) && m + n < len {
+				return fail(&format!("next() after nth({}) after {} next()", n, m), format!("{:?}", after));
+			}
+		}
+	}
+	for step in [2usize, 3] {
+		let got: Vec<T> = make().step_by(step).collect();
+		let want: Vec<T> = expected.iter().step_by(step).cloned().collect();
+		n_checks += 1;
+		if got != want {
+			return fail(&format!("step_by({})", step), format!("{:?}", got));
+		}
+	}
+	for skip in [1usize, 2, len] {
+		let got: Vec<T> = make().skip(skip).collect();
+		let want: Vec<T> = expected.iter().skip(skip).cloned().collect();
+		n_checks += 1;
+		if got != want {
+			return fail(&format!("skip({})", skip), format!("{:?}", got));
+		}
+		// skip after a partial consumption
+		let mut it = make();
+		it.next();
+		let got: Vec<T> = it.skip(skip).collect();
+		let want: Vec<T> = expected.iter().skip(1 + skip).cloned().collect();
+		if got != want {
+			return fail(&format!("next() then skip({})", skip), format!("{:?}", got));
+		}
+	}
+	Ok(n_checks)
+}
+
+/// Double-ended part of the protocol: rev, nth_back, next_back after nth.
+pub fn check_iter_back<T, I>(what: &str, make: &dyn Fn() -> I, expected: &[T]) -> Result<u64, String>
+where
+	T: PartialEq + std::fmt::Debug + Clone,
+	I: DoubleEndedIterator<Item = T>,
+{
+	let len = expected.len();
+	let mut n_checks = 0u64;
+	let fail = |how: &str, got: String| Err(format!("{}: {} yields {}, expected from {:?}", what, how, got, expected));
+	let got: Vec<T> = make().rev().collect();
+	let mut want: Vec<T> = expected.to_vec();
+	want.reverse();
+	n_checks += 1;
+	if got != want {
+		return fail("rev()", format!("{:?}", got));
+	}
+	for m in 0..=len.min(3) {
+		for n in 0..=(len + 1).min(4) {
+			// m items taken from the front, then nth_back(n)
+			let mut it = make();
+			for _ in 0..m {
+				it.next();
+			}
+			let got = it.nth_back(n);
+			let want = if m + n < len { expected.get(len - 1 - n) } else { None };
+			n_checks += 1;
+			if got.as_ref() != want {
+				return fail(&format!("nth_back({}) after {} next()", n, m), format!("{:?}", got));
+			}
+			// m items taken from the back, then nth(n)
+			let mut it = make();
+			for _ in 0..m {
+				it.next_back();
+			}
+			let got = it.nth(n);
+			let want = if m + n < len { expected.get(n) } else { None };
+			if got.as_ref() != want {
+				return fail(&format!("nth({}) after {} next_back()", n, m), format!("{:?}", got));
+			}
+		}
+	}
+	if make().rfold(0usize, |a, _| a + 1) != len {
+		return fail("rfold", "a different number of items".to_string());
+	}
+	Ok(n_checks)
+}
